@@ -27,12 +27,34 @@ func main() {
 			Opts:   hx.TreeOpts{Unsync: true, Phantom: false, MaxDepth: c.Size(5, 7), MaxKids: 4},
 		}
 		corex.RunReconcileCases(c,
-			func(emit func(string, *core.Entry, *core.Entry, *core.Entry)) {
+			func(emit func(string, *core.Entry, *core.Entry, *core.Entry), raw func(string)) {
 				corex.Triples(c, cfg, emit)
 				cfg2 := cfg
 				cfg2.Stride, cfg2.Random = 1<<30, c.Size(300, 30000)
 				cfg2.Opts.Phantom = true
 				corex.Triples(c, cfg2, emit)
+				// Conflict.EnsureValid / Slim on real conflicts and on damaged ones
+				// (an empty side, an invalid entry inside a change).
+				mo := hx.TreeOpts{Unsync: true, Phantom: true, MaxDepth: 2, MaxKids: 2}
+				for i := 0; i < c.Size(20000, 300000); i++ {
+					a, al, be := hx.GenTriple(c.R, cfg.Opts)
+					m, _ := hx.ModeByName(c.R.Pick(corex.AllModes...))
+					p := corex.Reconcile(a, al, be, m)
+					for _, cf := range p.Conflicts {
+						cf = &core.Conflict{Root: cf.Root, AlphaChanges: cf.AlphaChanges, BetaChanges: cf.BetaChanges}
+						switch c.R.Intn(6) {
+						case 0:
+							cf.AlphaChanges = nil
+						case 1:
+							cf.BetaChanges = nil
+						case 2:
+							cf.AlphaChanges = append([]*core.Change{{Path: cf.Root, New: hx.GenMalformed(c.R, mo)}}, cf.AlphaChanges...)
+						case 3:
+							cf.BetaChanges = append(append([]*core.Change{}, cf.BetaChanges...), &core.Change{Path: cf.Root, Old: hx.GenMalformed(c.R, mo)})
+						}
+						raw("cfvalid " + hx.EncConflict(cf))
+					}
+				}
 			},
 			func(t *corex.Triple, p *corex.Plan) string {
 				return corex.First(
